@@ -146,13 +146,13 @@ func Harness_K8_ListOrder() {
 // Harness_K8_ReadConfig: an unreadable or unparsable file, or no `types` after both channels, is an
 // error (no generation with defaults); otherwise the CLI value wins over the YAML value.
 func Harness_K8_ReadConfig() {
-	useFile, readErr, yamlErr := vrtBool(), vrtBool(), vrtBool()
+	useFile, readErr, yamlErr, emptyList := vrtBool(), vrtBool(), vrtBool(), vrtBool()
 	yamlType := vrtString()
 	cliTypes := vrtString()
 	vrtAssume(vrtIdent(yamlType) && vrtPrintable(cliTypes) && !strings.Contains(cliTypes, "+"))
 	params := map[string]string{"types": cliTypes}
 	if useFile {
-		params["config"] = vrtConfigFile(readErr, yamlErr, yamlType)
+		params["config"] = vrtConfigFile(readErr, yamlErr, emptyList, yamlType)
 	}
 	c, err := ReadConfig(params)
 	ct := strings.Trim(cliTypes, vrtWS)
